@@ -891,6 +891,10 @@ type StatefulFilter struct{ cur filter.Filter }
 
 func (s *StatefulFilter) Accept(o metav1.Object) bool { return s.cur.Accept(o) }
 
+// NewStateful / Set: for scenarios that drive such a filter themselves.
+func NewStateful(f filter.Filter) *StatefulFilter { return &StatefulFilter{cur: f} }
+func (s *StatefulFilter) Set(f filter.Filter)      { s.cur = f }
+
 // FlipRoot changes what the controller-level filter accepts (RootSwitch): the
 // next relist is what brings the cache in line.
 func (h *H) FlipRoot(f FilterSpec) {
